@@ -115,8 +115,11 @@ func (a *c05Asm) assemble(tag string, cases []*c05Case) error {
 		a.runs++
 		a.mu.Unlock()
 		if runErr == nil {
-			return a.readback(base, alive)
+			err := a.readback(base, alive)
+			os.Remove(base + ".s")
+			return err
 		}
+		os.Remove(base + ".s")
 		// attribute messages to instructions
 		bad := map[*c05Case]string{}
 		crashed := bytes.Contains(out, []byte("panic:")) || bytes.Contains(out, []byte("goroutine "))
